@@ -587,7 +587,8 @@ def gen_downsample_cases(ctx):
                     continue
                 labels = None
                 if kind in ('series', 'dataframe'):
-                    labels = rng.choice([list(range(N)), list(range(N))[::-1], [10 + 3 * i for i in range(N)]])
+                    labels = rng.choice([list(range(N)), list(range(N))[::-1], [10 + 3 * i for i in range(N)],
+                                         [i // 2 for i in range(N)], [i % 2 for i in range(N)], ['r%d' % (i % 3) for i in range(N)]])   # incl. duplicated / string labels (pd.concat without ignore_index)
                 for m in list(range(0, N + 3)) + [None]:
                     cases.append((list(values), kind, labels, m, _seed(ctx)))
     for _ in range(120 if ctx.quick else 2500):
@@ -598,8 +599,11 @@ def gen_downsample_cases(ctx):
         labels = None
         if kind in ('series', 'dataframe'):
             labels = list(range(N))
-            if rng.random() < 0.5:
+            c = rng.random()
+            if c < 0.4:
                 rng.shuffle(labels)
+            elif c < 0.7:
+                labels = [rng.randrange(max(1, N // 2)) for _ in range(N)]      # duplicated labels
         m = rng.choice([0, 1, N - 1, N, N + 1, N + 2, None, rng.randint(0, N), rng.randint(0, N)])
         cases.append((values, kind, labels, max(m, 0) if m is not None else None, _seed(ctx)))
     return cases
